@@ -369,9 +369,9 @@ class Explorer:
         fid = self.frame_counter
         store = dict(store)
         for p, a in zip(f.params, list(args) + [TOP] * (len(f.params) - len(args))):
-            if isinstance(a, dict):
+            if isinstance(a, dict) or (isinstance(a, tuple) and a and a[0] == "agg"):
                 # a struct passed by value: {path: value}
-                for path, v in a.items():
+                for path, v in (a.items() if isinstance(a, dict) else a[1]):
                     store[(("loc", fid, p["name"]), tuple(path))] = v
                 continue
             store[(("loc", fid, p["name"]), ())] = a
@@ -704,6 +704,16 @@ class Explorer:
                         v = self.sym("mem%d:%s" % (self._nmem, f.src(c[0])), r[0], r[1])
                         st.store[loc] = v
                         return v
+                if loc is not None and loc not in st.store:
+                    tname = n.get("ct") or n.get("t") or ""
+                    if tname.startswith("struct ") or tname.startswith("union "):
+                        # a struct read as a whole: carry its known fields (by-value argument, struct copy)
+                        pre = loc[1]
+                        items = tuple(sorted(((k[1][len(pre):], v) for k, v in st.store.items()
+                                              if k[0] == loc[0] and len(k[1]) > len(pre) and k[1][:len(pre)] == pre
+                                              and k[1] != ("zeroinit",)), key=str))
+                        if items:
+                            return ("agg", items)
                 return self.load(st.store, loc)
             if ck == "ArrayToPointerDecay":
                 sn = f.nodes[f.strip(c[0])]
@@ -1041,6 +1051,14 @@ class Explorer:
         return None
 
     def _store(self, f, st, loc, val, node):
+        if val[0] == "agg":
+            # struct copy: scatter the fields, forget what the destination held before
+            for k in [k for k in st.store if k[0] == loc[0] and len(k[1]) > len(loc[1]) and k[1][:len(loc[1])] == loc[1]]:
+                del st.store[k]
+            st.store.pop(loc, None)
+            for path, v in val[1]:
+                st.store[(loc[0], loc[1] + tuple(path))] = v
+            return
         st.store[loc] = val
         root = loc[0]
         if not (isinstance(root, tuple) and root[0] == "loc"):
